@@ -31,6 +31,7 @@ THEOREMS = [
     "C12_replace_refused_noop",
     "C12_restore_insert",
     "C12_load_in_place",
+    "C12_pull_restore",
     "C12_flow_derivation",
     "C12_firing_order",
     "C12_ditch_without_disconnect_witness",
@@ -905,6 +906,41 @@ def run_impl(case):
 
     o_restore = Composite.__dict__["_restore_connections_from_strings"]
     o_load = Node.load
+    import pyiron_workflow.node as node_mod
+
+    o_linear = node_mod.set_run_connections_according_to_linear_dag
+    o_tree = Node.run_data_tree
+    pulls: list = []
+
+    def linear(nodes):
+        # since 89b457b `run_data_tree` has, right before this call, saved the lists of every signal channel of the
+        # data-tree nodes and of everything connected to one; its `finally` assigns them back
+        keys, seen = [], set()
+        if T.on:
+            for n in nodes.values():
+                for channel in (*n.signals.input, *n.signals.output):
+                    for c in (channel, *channel.connections):
+                        if id(c) not in seen:
+                            seen.add(id(c))
+                            keys.append(c)
+                            if T.note:
+                                T.note(c)
+        pos = len(T.log)
+        r = o_linear(nodes)   # (a failed derivation raises: `run_data_tree` then restores nothing itself)
+        if T.on:
+            T.log.insert(pos, ("pullbegin", keys))
+        pulls.append(True)
+        return r
+
+    def run_data_tree(self, *a, **k):
+        depth = len(pulls)
+        try:
+            return o_tree(self, *a, **k)
+        finally:
+            if len(pulls) > depth:
+                del pulls[depth:]
+                if T.on:
+                    T.log.append(("pullend",))
 
     def restore(nodes, connections, in_getter, out_getter):
         # since f343608 the stored pairs are inserted into both lists directly (no `connect`)
@@ -940,6 +976,8 @@ def run_impl(case):
     Composite._restore_firing_order = restore_order
     Composite._restore_connections_from_strings = staticmethod(restore)
     Node.load = load
+    node_mod.set_run_connections_according_to_linear_dag = linear
+    Node.run_data_tree = run_data_tree
     try:
         return _run_impl(case, T)
     finally:
@@ -948,6 +986,8 @@ def run_impl(case):
         Composite._restore_firing_order = o_order
         Composite._restore_connections_from_strings = o_restore
         Node.load = o_load
+        node_mod.set_run_connections_according_to_linear_dag = o_linear
+        Node.run_data_tree = o_tree
 
 
 def _run_impl(case, T):
@@ -1068,7 +1108,8 @@ def _run_impl(case, T):
 
         out = []
         for e in T.log:
-            touched = [e[1], *e[2]] if e[0] in ("c", "d", "order", "ins", "move") else (e[1] if e[0] == "dagbegin" else [])
+            touched = ([e[1], *e[2]] if e[0] in ("c", "d", "order", "ins", "move")
+                       else (e[1] if e[0] in ("dagbegin", "pullbegin") else []))
             if touched and all(id(x) not in index for x in touched):
                 # objects that lived only inside the operation (the copy a by-value executor ran on, ...)
                 out.append("#transient")
@@ -1083,6 +1124,10 @@ def _run_impl(case, T):
                 out.append(f"t-insert {cid(e[1])} {cid(e[2][0])}")
             elif e[0] == "move":
                 out.append(f"t-move {cid(e[1])} {cid(e[2][0])}")
+            elif e[0] == "pullbegin":
+                out.append("t-pullbegin " + " ".join(str(cid(x)) for x in e[1]))
+            elif e[0] == "pullend":
+                out.append("t-pullend")
             elif e[0] == "dagbegin":
                 out.append("t-dagbegin " + " ".join(str(cid(x)) for x in e[1]))
             elif e[0] == "dagfail":
